@@ -48,6 +48,25 @@ def build_registry(mods):
         if hook is not None:
             hook()
             m.after_load = None
+    # which sidecar modules build on which (python imports between them), transitively
+    import types as _types
+    by_py = {id(m.pymodule): m for m in mods if getattr(m, 'pymodule', None) is not None}
+    for m in mods:
+        m.uses = set()
+    changed = True
+    while changed:
+        changed = False
+        for m in mods:
+            py = getattr(m, 'pymodule', None)
+            if py is None:
+                continue
+            for v in list(vars(py).values()):
+                other = by_py.get(id(v)) if isinstance(v, _types.ModuleType) else None
+                if other is not None and other is not m:
+                    new = {other.prop} | other.uses
+                    if not new <= m.uses:
+                        m.uses |= new
+                        changed = True
     reg = Registry()
     reg.loops_by_key = {}
     for m in mods:
